@@ -1369,12 +1369,14 @@ def i_BSR(i, fmap):
 def i_POPCNT(i, fmap):
     logger.verbose("%s semantic is not defined" % i.mnemonic)
     dst, src = i.operands
+    x = fmap(src)
     fmap[dst] = top(dst.size)
     fmap[cf] = bit0
     fmap[of] = bit0
     fmap[sf] = bit0
     fmap[af] = bit0
-    fmap[zf] = fmap(src) == 0
+    fmap[pf] = bit0
+    fmap[zf] = x == 0
     fmap[eip] = fmap[eip] + i.length
 
 
